@@ -92,7 +92,9 @@ class Ctx:
         self.queries += 1
         return r
 
-    def add(self, e):
+    def add(self, e, *more):
+        for x in more:
+            self.add(x)
         self.solver.add(e)
         if self.model is not None:
             try:
